@@ -81,7 +81,18 @@ fn spec_pos(cs: &[char], off: usize) -> (usize, usize) {
 }
 
 /// Name of the convention under which `got` is the position of char offset `off`, if any.
-fn convention(cs: &[char], off: usize, got: (usize, usize)) -> &'static str {
+fn convention(cs: &[char], off: usize, got: (usize, usize), seam: &str) -> &'static str {
+    // where the two known conventions coincide, name the one the seam's code path uses
+    let (a, b) = (convention_calculator(cs, off, got), convention_pest(cs, off, got));
+    match (a, b, seam == "parse-error") {
+        (_, true, true) => "lone-cr-is-a-column",
+        (true, _, _) => "lone-cr-resets-column-only",
+        (_, true, _) => "lone-cr-is-a-column",
+        _ => convention_other(cs, off, got),
+    }
+}
+
+fn convention_calculator(cs: &[char], off: usize, got: (usize, usize)) -> bool {
     let upto = &cs[..off.min(cs.len())];
     // PositionCalculator::step as it stands: CR only resets the column
     let (mut l, mut c) = (1usize, 1usize);
@@ -95,9 +106,11 @@ fn convention(cs: &[char], off: usize, got: (usize, usize)) -> &'static str {
             _ => c += 1,
         }
     }
-    if (l, c) == got {
-        return "lone-cr-resets-column-only";
-    }
+    (l, c) == got
+}
+
+fn convention_pest(cs: &[char], off: usize, got: (usize, usize)) -> bool {
+    let upto = &cs[..off.min(cs.len())];
     // pest's Position::line_col: CRLF and LF end a line, a lone CR is an ordinary column
     let (mut l, mut c) = (1usize, 1usize);
     let mut i = 0;
@@ -116,9 +129,10 @@ fn convention(cs: &[char], off: usize, got: (usize, usize)) -> &'static str {
         }
         i += 1;
     }
-    if (l, c) == got {
-        return "lone-cr-is-a-column";
-    }
+    (l, c) == got
+}
+
+fn convention_other(cs: &[char], off: usize, got: (usize, usize)) -> &'static str {
     // spec lines, other column units
     let (sl, _) = spec_pos(cs, off);
     let line_start = (0..off.min(cs.len())).rev().find(|i| cs[*i] == '\n' || cs[*i] == '\r').map(|i| i + 1).unwrap_or(0);
@@ -461,44 +475,103 @@ fn exemplar(cx: &Cx, doc: Doc, id: &'static str, src: &str) -> Option<Exemplar> 
     Some(Exemplar { id, doc, toks })
 }
 
-/// Render tokens `0..upto` with the chooser's assignment; returns (text, labels of the non-default choices).
-fn render(ex: &Exemplar, upto: usize, ch: &mut Chooser) -> (String, Vec<&'static str>) {
+struct Rendering {
+    src: String,
+    /// labels of the non-default choices
+    used: Vec<&'static str>,
+    /// char offsets (start, end) of every rendered token
+    spans: Vec<(usize, usize)>,
+    /// tokens whose text was replaced by a string variant
+    replaced: Vec<bool>,
+}
+
+/// Render tokens `0..upto` with the chooser's assignment.
+fn render(ex: &Exemplar, upto: usize, ch: &mut Chooser) -> Rendering {
     let mut s = String::new();
+    let mut len = 0usize;
     let mut used = Vec::new();
-    for (i, (sep, text, kind)) in ex.toks.iter().enumerate().take(upto) {
+    let mut spans = Vec::new();
+    let mut replaced = Vec::new();
+    let push = |s: &mut String, t: &str, len: &mut usize| {
+        s.push_str(t);
+        *len += t.chars().count();
+    };
+    for (sep, text, kind) in ex.toks.iter().take(upto) {
         let g = ch.dev(0, "gap", SEPARATORS.len() + 1);
         if g == 0 {
-            s.push_str(sep);
+            push(&mut s, sep, &mut len);
         } else {
-            // a separator equal to the original one would repeat the default case: use the doubled form
             let (name, t) = SEPARATORS[g - 1];
-            s.push_str(t);
+            push(&mut s, t, &mut len);
             used.push(name);
         }
-        let _ = i;
+        let start = len;
+        let mut repl = false;
         match kind {
             1 => {
                 let v = ch.dev(0, "string", STRING_VARIANTS.len() + 1);
                 if v == 0 {
-                    s.push_str(text);
+                    push(&mut s, text, &mut len);
                 } else {
-                    s.push_str(STRING_VARIANTS[v - 1].1);
+                    push(&mut s, STRING_VARIANTS[v - 1].1, &mut len);
                     used.push(STRING_VARIANTS[v - 1].0);
+                    repl = true;
                 }
             }
             2 => {
                 let v = ch.dev(0, "block", BLOCK_VARIANTS.len() + 1);
                 if v == 0 {
-                    s.push_str(text);
+                    push(&mut s, text, &mut len);
                 } else {
-                    s.push_str(BLOCK_VARIANTS[v - 1].1);
+                    push(&mut s, BLOCK_VARIANTS[v - 1].1, &mut len);
                     used.push(BLOCK_VARIANTS[v - 1].0);
+                    repl = true;
                 }
             }
+            _ => push(&mut s, text, &mut len),
+        }
+        spans.push((start, len));
+        replaced.push(repl);
+    }
+    Rendering { src: s, used, spans, replaced }
+}
+
+/// The single-line ASCII twin of the first `cut` tokens + `%`: every gap a space (or nothing where the exemplar
+/// has nothing), every string token that is not plain ASCII on one line replaced. On it line = 1 and
+/// column = offset + 1 under every convention, so the crate's own answer tells which token its syntax error
+/// refers to. Returns (token spans, offset of `%`, offset the crate's error points at).
+fn twin(ex: &Exemplar, cut: usize) -> Option<(Vec<(usize, usize)>, usize, usize)> {
+    let mut s = String::new();
+    let mut spans = Vec::new();
+    let n = ex.toks.len();
+    for (sep, text, kind) in ex.toks.iter().take(cut) {
+        if !sep.is_empty() {
+            s.push(' ');
+        }
+        let start = s.len();
+        let plain = text.is_ascii() && !text.contains(['\n', '\r']);
+        match (kind, plain) {
+            (1, false) => s.push_str("\"s\""),
+            (2, false) => s.push_str("\"\"\"s\"\"\""),
             _ => s.push_str(text),
         }
+        spans.push((start, s.len()));
     }
-    (s, used)
+    if cut == n || !ex.toks[cut].0.is_empty() {
+        s.push(' ');
+    }
+    let pct = s.len();
+    s.push('%');
+    debug_assert!(s.is_ascii());
+    let err = match ex.doc {
+        Doc::Exec => parse_query(&s).err(),
+        Doc::Ts => parse_schema(&s).err(),
+    }?;
+    let p = err.positions().next()?;
+    if p.line != 1 || p.column == 0 || p.column - 1 > pct {
+        return None;
+    }
+    Some((spans, pct, p.column - 1))
 }
 
 struct Stats {
@@ -507,13 +580,27 @@ struct Stats {
     crate_rejects: AtomicU64,
     structure_differs: AtomicU64,
     syntax_cases: AtomicU64,
-    syntax_at_enclosing_type: AtomicU64,
+    syntax_at_earlier_token: AtomicU64,
+    syntax_unmappable: AtomicU64,
+    syntax_other_shape: AtomicU64,
     error_cases: AtomicU64,
+    error_cases_other_shape: AtomicU64,
 }
+
+/// Histogram of discrepancies by seam and convention (written to the evidence; known or not).
+static HISTOGRAM: std::sync::Mutex<std::collections::BTreeMap<String, (u64, String)>> = std::sync::Mutex::new(std::collections::BTreeMap::new());
 
 fn pos_violation(cx: &Cx, seam: &str, node: &str, doc: Doc, src: &str, cs: &[char], off: usize, got: Pos, exemplar: &str, used: &[&'static str]) {
     let exp = spec_pos(cs, off);
-    let conv = convention(cs, off, (got.line, got.column));
+    let conv = convention(cs, off, (got.line, got.column), seam);
+    {
+        let mut h = HISTOGRAM.lock().unwrap();
+        let e = h.entry(format!("seam={seam} convention={conv}")).or_insert((0, src.to_string()));
+        e.0 += 1;
+        if src.len() < e.1.len() {
+            e.1 = src.to_string();
+        }
+    }
     cx.violation(
         Violation::new(
             "wrong-position",
@@ -525,7 +612,7 @@ fn pos_violation(cx: &Cx, seam: &str, node: &str, doc: Doc, src: &str, cs: &[cha
                 got.line,
                 got.column
             ),
-            json!({ "seam": seam, "doc": doc.name(), "src": src }),
+            json!({ "seam": seam, "doc": doc.name(), "src": src, "field_offset": off }),
         )
         .key("seam", seam)
         .key("convention", conv)
@@ -535,7 +622,19 @@ fn pos_violation(cx: &Cx, seam: &str, node: &str, doc: Doc, src: &str, cs: &[cha
     );
 }
 
-/// Compare every node position of one rendering. Returns the number of nodes compared.
+/// Do both parsers accept `src` with trees of the same shape (same node kinds in the same order)?
+fn same_shape(doc: Doc, src: &str) -> bool {
+    let Some(refs) = ref_events(doc, src) else { return false };
+    let got = match doc {
+        Doc::Exec => parse_query(src).ok().map(|d| crate_exec_events(&d)),
+        Doc::Ts => parse_schema(src).ok().map(|d| crate_ts_events(&d)),
+    };
+    let Some(got) = got else { return false };
+    refs.len() == got.len() && refs.iter().zip(&got).all(|(a, b)| a.0 == b.0 && a.1.len() == b.1.len() && a.1.iter().zip(&b.1).all(|(x, y)| x.kind == y.0))
+}
+
+/// Compare every node position of one rendering. Returns the number of nodes compared when all of them
+/// agreed, 0 otherwise.
 fn check_ast(cx: &Cx, st: &Stats, doc: Doc, src: &str, exemplar: &str, used: &[&'static str]) -> u64 {
     let Some(refs) = ref_events(doc, src) else { return 0 };
     let got = agv_engine::catch_quiet(|| match doc {
@@ -562,81 +661,86 @@ fn check_ast(cx: &Cx, st: &Stats, doc: Doc, src: &str, exemplar: &str, used: &[&
     }
     let cs: Vec<char> = src.chars().collect();
     let mut n = 0;
+    let mut bad = 0;
     for ((_, a), (_, b)) in refs.iter().zip(&got) {
         for (x, y) in a.iter().zip(b) {
             n += 1;
             if (x.pos.line as usize, x.pos.col as usize) != (y.1.line, y.1.column) {
+                bad += 1;
                 pos_violation(cx, "ast", x.kind, doc, src, &cs, x.off, y.1, exemplar, used);
             }
         }
     }
     st.compared_nodes.fetch_add(n, Ordering::Relaxed);
     st.renderings_compared.fetch_add(1, Ordering::Relaxed);
-    n
+    if bad == 0 {
+        n
+    } else {
+        0
+    }
 }
 
-/// `prefix` + `%`: the parser's error must point at the `%` (or, inside a list type, which the crate lexes as
-/// one atomic token, at the start of that type).
-fn check_syntax_error(cx: &Cx, st: &Stats, doc: Doc, prefix: &str, exemplar: &str, used: &[&'static str]) {
-    let src = format!("{prefix}%");
+/// `r.src` ends with `%`. The parser's error must point at the same token (and offset within it) as it does on
+/// the single-line ASCII twin, at that token's true line and column.
+#[allow(clippy::too_many_arguments)]
+fn check_syntax_error(cx: &Cx, st: &Stats, ex: &Exemplar, r: &Rendering, tw: &(Vec<(usize, usize)>, usize, usize)) {
+    let doc = ex.doc;
+    let src = &r.src;
     let cs: Vec<char> = src.chars().collect();
-    let off = cs.len() - 1;
+    let pct_off = cs.len() - 1;
+    let case = || json!({ "seam": "parse-error", "doc": doc.name(), "src": src });
     let err = agv_engine::catch_quiet(|| match doc {
-        Doc::Exec => parse_query(&src).err(),
-        Doc::Ts => parse_schema(&src).err(),
+        Doc::Exec => parse_query(src).err(),
+        Doc::Ts => parse_schema(src).err(),
     });
     let err = match err {
         Err(p) => {
-            cx.violation(Violation::new("panic", format!("parser panicked on {src:?}: {p}"), json!({ "seam": "parse-error", "doc": doc.name(), "src": src })).key("seam", "parse-error"));
+            cx.violation(Violation::new("panic", format!("parser panicked on {src:?}: {p}"), case()).key("seam", "parse-error"));
             return;
         }
         Ok(None) => {
-            cx.violation(Violation::new("accepts-illegal-character", format!("{src:?} accepted"), json!({ "seam": "parse-error", "doc": doc.name(), "src": src })).key("seam", "parse-error"));
+            cx.violation(Violation::new("accepts-illegal-character", format!("{src:?} accepted"), case()).key("seam", "parse-error"));
             return;
         }
         Ok(Some(e)) => e,
     };
-    st.syntax_cases.fetch_add(1, Ordering::Relaxed);
     let direct: Vec<Pos> = err.positions().collect();
     let server: ServerError = err.into();
     if server.locations != direct {
         cx.violation(
-            Violation::new("server-error-locations-differ", format!("{src:?}: parser error positions {direct:?}, ServerError.locations {:?}", server.locations), json!({ "seam": "parse-error", "doc": doc.name(), "src": src }))
-                .key("seam", "parse-error"),
+            Violation::new("server-error-locations-differ", format!("{src:?}: parser error positions {direct:?}, ServerError.locations {:?}", server.locations), case()).key("seam", "parse-error"),
         );
     }
     let Some(got) = direct.first().copied() else {
-        cx.violation(Violation::new("no-position", format!("{src:?}: syntax error without a position"), json!({ "seam": "parse-error", "doc": doc.name(), "src": src })).key("seam", "parse-error"));
+        cx.violation(Violation::new("no-position", format!("{src:?}: syntax error without a position"), case()).key("seam", "parse-error"));
         return;
     };
-    let exp = spec_pos(&cs, off);
-    if (got.line, got.column) == exp {
+    // map the twin's error offset into this rendering
+    let (tspans, tpct, toff) = tw;
+    let (off, node) = if toff == tpct {
+        (pct_off, "illegal-character")
+    } else if let Some(k) = tspans.iter().position(|(a, b)| a <= toff && toff < b) {
+        let delta = toff - tspans[k].0;
+        if delta > 0 && (r.replaced[k] || tspans[k].1 - tspans[k].0 != r.spans[k].1 - r.spans[k].0) {
+            st.syntax_unmappable.fetch_add(1, Ordering::Relaxed);
+            return;
+        }
+        (r.spans[k].0 + delta, if delta == 0 { "token-start" } else { "inside-token" })
+    } else if let Some(k) = tspans.iter().position(|(_, b)| b == toff) {
+        (r.spans[k].1, "token-end")
+    } else {
+        st.syntax_unmappable.fetch_add(1, Ordering::Relaxed);
         return;
-    }
-    // inside a type the crate's grammar fails at the start of the (atomic) type
-    let (_, tr) = match doc {
-        Doc::Exec => {
-            let (r, t) = rp::parse_exec_traced(&src);
-            (r.is_ok(), t)
-        }
-        Doc::Ts => {
-            let (r, t) = rp::parse_ts_traced(&src);
-            (r.is_ok(), t)
-        }
     };
-    if tr.failed_in.contains(&"Type") {
-        if let Some(e) = tr.events.iter().rev().find(|e| e.kind == "Type") {
-            if (got.line, got.column) == spec_pos(&cs, e.off) {
-                st.syntax_at_enclosing_type.fetch_add(1, Ordering::Relaxed);
-                return;
-            }
-            if convention(&cs, e.off, (got.line, got.column)) == "lone-cr-is-a-column" {
-                pos_violation(cx, "parse-error", "Type", doc, &src, &cs, e.off, got, exemplar, used);
-                return;
-            }
-        }
+    st.syntax_cases.fetch_add(1, Ordering::Relaxed);
+    if node != "illegal-character" {
+        st.syntax_at_earlier_token.fetch_add(1, Ordering::Relaxed);
     }
-    pos_violation(cx, "parse-error", "illegal-character", doc, &src, &cs, off, got, exemplar, used);
+    if (got.line, got.column) != spec_pos(&cs, off) {
+        pos_violation(cx, "parse-error", node, doc, src, &cs, off, got, ex.id, &r.used);
+    } else if src.chars().any(|c| c == '\n' || c == '\r' || !c.is_ascii()) {
+        cx.nontrivial(agv_engine::hstr(src));
+    }
 }
 
 // ------------------------------------------------------------------ validation / execution errors
@@ -704,6 +808,8 @@ fn check_exec_error(cx: &Cx, st: &Stats, schema: &S, seam: &'static str, src: &s
         let got = e.locations[0];
         if (got.line, got.column) != exp {
             pos_violation(cx, seam, "Field", Doc::Exec, src, &cs, off, got, exemplar, used);
+        } else if src.chars().any(|c| c == '\n' || c == '\r') {
+            cx.nontrivial(agv_engine::hstr(src));
         }
     }
 }
@@ -714,20 +820,24 @@ fn run_inner(cx: &Cx) {
     let quick = cx.quick();
     cx.rule(
         "case = one rendering of an exemplar (a choice of separator for every token gap and of a variant for every string token, ≤ k non-default), \
-         one cut of such a rendering followed by `%`, or one field of a schema document renamed to an unknown / failing field. Non-trivial = a rendering \
-         containing a line terminator or a non-ASCII character before at least one compared node on which all compared positions agreed; counted by source hash.",
+         one cut of such a rendering followed by `%`, or one field of a schema document renamed to an unknown / failing field. Non-trivial = a case whose text \
+         contains a line terminator or a non-ASCII character and on which every compared position agreed with the reference; counted by source hash.",
     );
     cx.assume("expected positions come from agv-refgql's lexer (1-based; LF, CRLF, lone CR end a line; columns count scalar values), unit-tested there; nodes are matched through the reference parser's pre-order node events, so a node refers to the first token of its production (a field with an alias starts at the alias, a described definition at its description)");
     cx.assume("renderings the crate rejects or parses into a differently shaped tree are grammar matters (C13) and are skipped here, with counts in the evidence");
-    cx.assume("a syntax error inside a list type may point at the start of that type (the crate's grammar lexes a type as one atomic token); nested values and operation/fragment names carry no position in the crate's tree");
+    cx.assume("which token a syntax error refers to is pest's choice (the last position at which a grammar rule was attempted, e.g. the start of the unfinished argument or type) and is not judged: it is read off the crate's own answer on the single-line ASCII twin of the case, where line 1 / column offset+1 holds under every convention, and the same token's true line and column is demanded of the rendering");
+    cx.assume("nested values and operation/fragment names carry no position in the crate's tree");
     let st = Stats {
         compared_nodes: AtomicU64::new(0),
         renderings_compared: AtomicU64::new(0),
         crate_rejects: AtomicU64::new(0),
         structure_differs: AtomicU64::new(0),
         syntax_cases: AtomicU64::new(0),
-        syntax_at_enclosing_type: AtomicU64::new(0),
+        syntax_at_earlier_token: AtomicU64::new(0),
+        syntax_unmappable: AtomicU64::new(0),
+        syntax_other_shape: AtomicU64::new(0),
         error_cases: AtomicU64::new(0),
+        error_cases_other_shape: AtomicU64::new(0),
     };
 
     let mut exs = Vec::new();
@@ -762,12 +872,12 @@ fn run_inner(cx: &Cx) {
         let stats = explore(
             &ExploreCfg::bounds([bound, 0, 0, 0]),
             &|ch: &mut Chooser| {
-                let (src, used) = render(ex, n, ch);
-                let compared = check_ast(cx, &st, ex.doc, &src, ex.id, &used);
-                if compared > 0 && src.chars().any(|c| c == '\n' || c == '\r' || !c.is_ascii()) {
-                    cx.nontrivial(agv_engine::hstr(&src));
+                let r = render(ex, n, ch);
+                let compared = check_ast(cx, &st, ex.doc, &r.src, ex.id, &r.used);
+                if compared > 0 && r.src.chars().any(|c| c == '\n' || c == '\r' || !c.is_ascii()) {
+                    cx.nontrivial(agv_engine::hstr(&r.src));
                 }
-                cx.sample_with(agv_engine::hstr(&src), || json!({ "seam": "ast", "exemplar": ex.id, "src": src, "choices": used, "nodes_compared": compared }));
+                cx.sample_with(agv_engine::hstr(&r.src), || json!({ "seam": "ast", "exemplar": ex.id, "src": r.src, "choices": r.used, "nodes_agreeing": compared }));
             },
             &|_, _| {},
         );
@@ -785,23 +895,46 @@ fn run_inner(cx: &Cx) {
         let n = ex.toks.len();
         let bound: u32 = if quick || n > 24 { 1 } else { 2 };
         for cut in 0..=n {
+            let Some(tw) = twin(ex, cut) else {
+                cx.machinery_error(format!("exemplar {} cut {cut}: the ASCII twin gives no usable syntax error", ex.id));
+                continue;
+            };
             // the text up to and including the gap before token `cut` (for cut == n: the whole document and a space)
             let stats = explore(
                 &ExploreCfg::bounds([bound, 0, 0, 0]),
                 &|ch: &mut Chooser| {
-                    let (mut src, mut used) = render(ex, cut, ch);
+                    let mut r = render(ex, cut, ch);
                     if cut < n {
                         let g = ch.dev(0, "gap", SEPARATORS.len() + 1);
                         if g == 0 {
-                            src.push_str(&ex.toks[cut].0);
+                            r.src.push_str(&ex.toks[cut].0);
                         } else {
-                            src.push_str(SEPARATORS[g - 1].1);
-                            used.push(SEPARATORS[g - 1].0);
+                            r.src.push_str(SEPARATORS[g - 1].1);
+                            r.used.push(SEPARATORS[g - 1].0);
+                        }
+                        // the twin stands for this rendering only if the crate reads the rendering's tokens as the grammar
+                        // does: complete it with the remaining tokens and compare shapes (C13's slips — separators inside
+                        // a type or after `on` — fail here and are skipped)
+                        let mut full = r.src.clone();
+                        for (i, (sep, text, _)) in ex.toks.iter().enumerate().skip(cut) {
+                            if i > cut {
+                                full.push_str(sep);
+                            }
+                            full.push_str(text);
+                        }
+                        if !same_shape(ex.doc, &full) {
+                            st.syntax_other_shape.fetch_add(1, Ordering::Relaxed);
+                            return;
                         }
                     } else {
-                        src.push(' ');
+                        if !same_shape(ex.doc, &r.src) {
+                            st.syntax_other_shape.fetch_add(1, Ordering::Relaxed);
+                            return;
+                        }
+                        r.src.push(' ');
                     }
-                    check_syntax_error(cx, &st, ex.doc, &src, ex.id, &used);
+                    r.src.push('%');
+                    check_syntax_error(cx, &st, ex, &r, &tw);
                 },
                 &|_, _| {},
             );
@@ -813,6 +946,61 @@ fn run_inner(cx: &Cx) {
     }
     cx.evals(syn);
     cx.extra("syntax_error_cases", json!(syn));
+
+    // (2b) the parse functions' own document errors (positions taken from tree nodes)
+    const DOCUMENT_ERRORS: [(Doc, &str, &[usize]); 5] = [
+        // token indices in the order `Error::positions` documents: most important first
+        (Doc::Exec, "{ a } { b }", &[3, 0]),
+        (Doc::Exec, "query A { a } query A { b }", &[5, 0]),
+        (Doc::Exec, "{ a } fragment F on T { a } fragment F on T { b }", &[10, 3]),
+        (Doc::Ts, "schema { query: Q query: R }", &[5, 0]),
+        (Doc::Ts, "schema { mutation: M }", &[0]),
+    ];
+    let mut docerrs = 0u64;
+    for (doc, src, at) in DOCUMENT_ERRORS {
+        let Some(ex) = exemplar(cx, doc, "document-error", src) else { continue };
+        let n = ex.toks.len();
+        let stats = explore(
+            &ExploreCfg::bounds([if quick { 2 } else { 3 }, 0, 0, 0]),
+            &|ch: &mut Chooser| {
+                let r = render(&ex, n, ch);
+                let err = match doc {
+                    Doc::Exec => parse_query(&r.src).err(),
+                    Doc::Ts => parse_schema(&r.src).err(),
+                };
+                let case = json!({ "seam": "document-error", "doc": doc.name(), "src": r.src });
+                let Some(err) = err else {
+                    cx.violation(Violation::new("no-error", format!("document-error: {:?} accepted", r.src), case).key("seam", "document-error"));
+                    return;
+                };
+                let cs: Vec<char> = r.src.chars().collect();
+                let got: Vec<Pos> = err.positions().collect();
+                let offs: Vec<usize> = at.iter().map(|i| r.spans[*i].0).collect();
+                if matches!(err, async_graphql::parser::Error::Syntax { .. }) || got.len() != offs.len() {
+                    // a separator the crate's grammar does not take (C13) turned it into a syntax error
+                    st.syntax_other_shape.fetch_add(1, Ordering::Relaxed);
+                    return;
+                }
+                let mut ok = true;
+                for (g, o) in got.iter().zip(&offs) {
+                    if (g.line, g.column) != spec_pos(&cs, *o) {
+                        ok = false;
+                        pos_violation(cx, "document-error", "definition", doc, &r.src, &cs, *o, *g, "document-error", &r.used);
+                    }
+                }
+                if ok && r.src.chars().any(|c| c == '\n' || c == '\r') {
+                    cx.nontrivial(agv_engine::hstr(&r.src));
+                }
+            },
+            &|_, _| {},
+        );
+        if let Some(d) = stats.diverged {
+            cx.machinery_error(format!("explore diverged on document error {src:?}: {d}"));
+        }
+        docerrs += stats.executions;
+    }
+    cx.evals(docerrs);
+    cx.extra("document_error_cases", json!(docerrs));
 
     // (3) validation and execution errors
     let schema: S = Schema::build(Query, EmptyMutation, EmptySubscription).finish();
@@ -847,16 +1035,17 @@ fn run_inner(cx: &Cx) {
                 ex.toks[name_ix].1 = new_name.to_string();
                 let n = ex.toks.len();
                 let stats = explore(
-                    &ExploreCfg::bounds([if quick { 2 } else { 3 }, 0, 0, 0]),
+                    &ExploreCfg::bounds([if quick { 1 } else { 2 }, 0, 0, 0]),
                     &|ch: &mut Chooser| {
-                        let (src, used) = render(&ex, n, ch);
-                        // offset of the field's first token in this rendering
-                        let Ok(sp) = lex::tokenize_spans(&src) else { return };
-                        let off = sp[start_ix].0.off;
-                        check_exec_error(cx, &st, &schema, seam, &src, off, id, &used);
-                        if src.chars().any(|c| c == '\n' || c == '\r') {
-                            cx.nontrivial(agv_engine::hstr(&src));
+                        let r = render(&ex, n, ch);
+                        if !same_shape(Doc::Exec, &r.src) {
+                            // e.g. a comment right after `on`: the crate reads another tree (C13)
+                            st.error_cases_other_shape.fetch_add(1, Ordering::Relaxed);
+                            return;
                         }
+                        // offset of the field's first token in this rendering
+                        let off = r.spans[start_ix].0;
+                        check_exec_error(cx, &st, &schema, seam, &r.src, off, id, &r.used);
                     },
                     &|_, _| {},
                 );
@@ -879,10 +1068,22 @@ fn run_inner(cx: &Cx) {
             "renderings_the_crate_rejects_(C13)": st.crate_rejects.load(Ordering::Relaxed),
             "renderings_with_differently_shaped_tree_(C13)": st.structure_differs.load(Ordering::Relaxed),
             "syntax_errors_judged": st.syntax_cases.load(Ordering::Relaxed),
-            "syntax_errors_at_the_start_of_the_enclosing_type": st.syntax_at_enclosing_type.load(Ordering::Relaxed),
+            "syntax_errors_pointing_at_an_earlier_token_(as_on_the_ascii_twin)": st.syntax_at_earlier_token.load(Ordering::Relaxed),
+            "syntax_errors_not_mappable_from_the_twin_(skipped)": st.syntax_unmappable.load(Ordering::Relaxed),
+            "syntax_error_renderings_with_differently_shaped_tree_(C13,_skipped)": st.syntax_other_shape.load(Ordering::Relaxed),
             "validation_and_execution_errors_judged": st.error_cases.load(Ordering::Relaxed),
+            "validation_and_execution_renderings_with_differently_shaped_tree_(C13)": st.error_cases_other_shape.load(Ordering::Relaxed),
         }),
     );
+    {
+        let h = HISTOGRAM.lock().unwrap();
+        cx.extra("discrepancy_histogram", J::Array(h.iter().map(|(k, (n, ex))| json!({ "seam_and_convention": k, "cases": n, "smallest": ex })).collect()));
+        if std::env::var("C14_DUMP").is_ok() {
+            for (k, (n, ex)) in h.iter() {
+                eprintln!("{n:>9}  {k}   e.g. {ex:?}");
+            }
+        }
+    }
     cx.extra("bounds_completed", J::Object(bounds_used));
     cx.exhaustive(true);
 }
